@@ -1,7 +1,7 @@
 (* C04 - template calls and block (Content) arguments compose.  Theorems only. *)
 From Coq Require Import Lia.
 From Ructe Require Import Nom NomFacts Utf8 Spacelike Expression TemplateExpr Template Emit Tables Io IoProofs Exec
-                          ParserProofs TextProofs EmitProofs ExecProofs.
+                          ParserProofs TextProofs EmitProofs ExecProofs RoundTrip.
 Local Open Scope list_scope.
 
 Section Parse.
@@ -14,6 +14,26 @@ Section Parse.
     call_branch E (fun j => texpr_gram E ln n TE j) i.
   Proof. reflexivity. Qed.
 End Parse.
+
+(* the call parser captures the arguments it is given, in order and nested to any depth: Rust
+   fragments as written, blocks as the list of template expressions they hold (empty blocks,
+   comment-only blocks and blocks with further calls alike) -- [PArgs] is the declarative grammar
+   of an argument list (Proofs/RoundTrip.v), with any layout spacelike skips after commas and after
+   a block's closing brace *)
+Theorem call_arguments_captured : forall (E : nt -> parser bytes) (ln : nat), (forall x, good (E x)) ->
+  forall d name args i i1 r m, rust_name i = Ok name (40%N :: i1) -> PArgs E ln d args i1 (41%N :: r) -> S d < m ->
+  texpr_gram E ln m TE (b "@:" ++ i) = Ok (TCall name args) r.
+Proof.
+  intros E ln HE d name args i i1 r m Hn Ha Hm.
+  exact (proj1 (grammar_complete E HE ln) (S d) _ _ _ (PI_call E ln d name args i i1 r Hn Ha) m Hm).
+Qed.
+Example nested_call_arguments :
+  let E0 := expr_gram 12 in
+  PI E0 3 6 (TCall (b "page") [ARust (b "title"); ABody [TText (b "<h1>"); TCall (b "inner") [ABody []; ABody [TComment]]]; ARust (b "&xs[1..]")])
+     (b "@:page(title, {<h1>@:inner({}, {@* only *@})},  &xs[1..])|") (b "|").
+Proof.
+  intros E0. match goal with |- PI _ _ _ ?a ?s ?r => concrete a; concrete s; concrete r end. pi_item.
+Qed.
 
 (* emission: `name(_ructe_out_.by_ref(), args..)?;` with Rust arguments verbatim, an empty block as
    `|_| Ok(())`, and any other block (one holding only a comment included) as a closure that runs
@@ -73,6 +93,8 @@ Section Run.
 End Run.
 
 Redirect "assumptions/C04.call_form" Print Assumptions call_form.
+Redirect "assumptions/C04.call_arguments_captured" Print Assumptions call_arguments_captured.
+Redirect "assumptions/C04.nested_call_arguments" Print Assumptions nested_call_arguments.
 Redirect "assumptions/C04.block_argument_emission" Print Assumptions block_argument_emission.
 Redirect "assumptions/C04.content_param_rewrite" Print Assumptions content_param_rewrite.
 Redirect "assumptions/C04.exec_call" Print Assumptions exec_call.
